@@ -11,6 +11,10 @@
 #include "../genlib/entries.h"
 #include "../genlib/parsed.h"
 #include "../genlib/builder.h"
+#include "../genlib/parse_input.h"
+#include "../genlib/setters.h"
+#include "../genlib/render.h"
+#include "../ref/pcapfile.h"
 #include <tins/tins.h>
 #include <tins/tcp_ip/flow.h>
 #include <tins/tcp_ip/data_tracker.h>
@@ -37,6 +41,9 @@
 #include <thread>
 #include <sched.h>
 #include <dirent.h>
+#include <unistd.h>
+#include <sys/wait.h>
+#include <sys/select.h>
 #include <tins/handshake_capturer.h>
 #include <tins/crypto.h>
 #include <tins/eapol.h>
@@ -218,45 +225,95 @@ void prop(Src& s, Ctx& ctx) {
         }
     }
     if (ctx.logging()) ctx.log(desc);
-    // solo pass: one thread, same order
-    {
-        Ctx local;
-        local.tier = ctx.tier;
-        for (Work& w : work)
-            for (size_t i = 0; i < w.which.size(); ++i) w.solo.push_back(run_sub(S[w.which[i]], w.bytes[i], local));
-    }
-    // concurrent pass
-    std::atomic<unsigned> ready(0);
-    std::atomic<bool> go(false);
-    std::vector<std::thread> threads;
-    for (unsigned t = 0; t < k; ++t) {
-        threads.emplace_back([&, t]() {
+    // Every configuration runs in a freshly forked child so that libtins' lazily initialised state (if any) is COLD
+    // when the threads start: the concurrent pass comes first, the single-threaded reference pass second.
+    int out_pipe[2], err_pipe[2];
+    if (pipe(out_pipe) != 0 || pipe(err_pipe) != 0) { ctx.excluded("pipe-failed"); return; }
+    fflush(nullptr);
+    pid_t child = fork();
+    if (child == 0) {
+        close(out_pipe[0]); close(err_pipe[0]);
+        dup2(err_pipe[1], 2);
+        std::string verdict;
+        {
+            std::atomic<unsigned> ready(0);
+            std::atomic<bool> go(false);
+            std::vector<std::thread> threads;
+            for (unsigned t = 0; t < k; ++t) {
+                threads.emplace_back([&, t]() {
+                    Ctx local;
+                    local.tier = ctx.tier;
+                    Work& w = work[t];
+                    w.conc.reserve(w.which.size());
+                    ready.fetch_add(1);
+                    while (!go.load()) sched_yield();
+                    for (size_t i = 0; i < w.which.size(); ++i) {
+                        w.conc.push_back(run_sub(S[w.which[i]], w.bytes[i], local));
+                        if (((i * 2654435761u + t) & 0xff) < yield_mask) sched_yield();
+                    }
+                });
+            }
+            while (ready.load() < k) sched_yield();
+            go.store(true);
+            for (std::thread& th : threads) th.join();
+        }
+        {
             Ctx local;
             local.tier = ctx.tier;
-            Work& w = work[t];
-            w.conc.reserve(w.which.size());
-            ready.fetch_add(1);
-            while (!go.load()) sched_yield();
-            for (size_t i = 0; i < w.which.size(); ++i) {
-                w.conc.push_back(run_sub(S[w.which[i]], w.bytes[i], local));
-                if (((i * 2654435761u + t) & 0xff) < yield_mask) sched_yield();
-            }
-        });
-    }
-    while (ready.load() < k) sched_yield();
-    go.store(true);
-    for (std::thread& th : threads) th.join();
-    // differential oracle
-    std::set<unsigned> mains;
-    for (unsigned t = 0; t < k; ++t) {
-        Work& w = work[t];
-        for (size_t i = 0; i < w.which.size(); ++i) {
-            VCHECK(ctx, w.solo[i] == w.conc[i], std::string("C18:result-differs-under-concurrency:") + S[w.which[i]].id,
-                   "thread " << t << " case " << i << " (" << S[w.which[i]].id << ", input " << hex(w.bytes[i], 200) << "): fingerprint " << w.conc[i]
-                             << " when run with " << (k - 1) << " other threads, " << w.solo[i] << " when run alone | " << desc);
-            mains.insert(w.which[i]);
+            for (Work& w : work)
+                for (size_t i = 0; i < w.which.size(); ++i) w.solo.push_back(run_sub(S[w.which[i]], w.bytes[i], local));
         }
+        for (unsigned t = 0; t < k && verdict.empty(); ++t) {
+            Work& w = work[t];
+            for (size_t i = 0; i < w.which.size(); ++i) {
+                if (w.solo[i] != w.conc[i]) {
+                    std::ostringstream os;
+                    os << S[w.which[i]].id << "\nthread " << t << " case " << i << " (" << S[w.which[i]].id << ", input " << hex(w.bytes[i], 200) << "): fingerprint "
+                       << w.conc[i] << " when run with " << (k - 1) << " other threads, " << w.solo[i] << " when run alone";
+                    verdict = os.str();
+                    break;
+                }
+            }
+        }
+        if (!verdict.empty()) { ssize_t wr = write(out_pipe[1], verdict.data(), verdict.size()); (void)wr; }
+        _exit(0);
     }
+    close(out_pipe[1]); close(err_pipe[1]);
+    std::string verdict, err;
+    {
+        // drain both pipes (stderr can be large: read it while the child runs)
+        char buf[4096];
+        bool o_open = true, e_open = true;
+        while (o_open || e_open) {
+            fd_set rf;
+            FD_ZERO(&rf);
+            int mx = 0;
+            if (o_open) { FD_SET(out_pipe[0], &rf); mx = std::max(mx, out_pipe[0]); }
+            if (e_open) { FD_SET(err_pipe[0], &rf); mx = std::max(mx, err_pipe[0]); }
+            if (select(mx + 1, &rf, nullptr, nullptr, nullptr) < 0) break;
+            if (o_open && FD_ISSET(out_pipe[0], &rf)) { ssize_t n = read(out_pipe[0], buf, sizeof buf); if (n <= 0) o_open = false; else verdict.append(buf, (size_t)n); }
+            if (e_open && FD_ISSET(err_pipe[0], &rf)) { ssize_t n = read(err_pipe[0], buf, sizeof buf); if (n <= 0) e_open = false; else if (err.size() < (1u << 20)) err.append(buf, (size_t)n); }
+        }
+        close(out_pipe[0]); close(err_pipe[0]);
+    }
+    int status = 0;
+    waitpid(child, &status, 0);
+    if (!err.empty()) fputs(err.c_str(), stderr);
+    if (!WIFEXITED(status) || WEXITSTATUS(status) != 0 || err.find("ThreadSanitizer") != std::string::npos) {
+        // name the first libtins function in the report
+        std::string where = "?";
+        size_t pos = err.find(" Tins::");  // TSan frames read "#N function file:line"
+        if (pos != std::string::npos) { size_t e2 = err.find_first_of(" (", pos + 1); where = err.substr(pos + 1, e2 - pos - 1); }
+        std::string kind = err.find("data race") != std::string::npos ? "data-race" : (err.find("ThreadSanitizer") != std::string::npos ? "report" : "child-died");
+        VFAIL(ctx, "C18:tsan:" + kind + ":" + where, "the concurrent run " << (WIFEXITED(status) ? "exited with status " + std::to_string(WEXITSTATUS(status)) : std::string("was killed by a signal"))
+                                                                       << "; first lines of its report: " << err.substr(0, 1500) << " | " << desc);
+    }
+    if (!verdict.empty()) {
+        size_t nl = verdict.find('\n');
+        VFAIL(ctx, "C18:result-differs-under-concurrency:" + verdict.substr(0, nl), verdict.substr(nl + 1) << " | " << desc);
+    }
+    std::set<unsigned> mains;
+    for (Work& w : work) for (unsigned x : w.which) mains.insert(x);
     ctx.hash(k); ctx.hash(seed); ctx.hash(per_thread);
     ctx.label("threads=" + std::to_string(k));
     ctx.nontrivial(k >= 2 && per_thread >= 100 && mains.size() >= 2);
